@@ -1,5 +1,6 @@
-// Native validator for the C16 machinery (template; see vf/llsym/build.py::build_scan_validator).  For EVERY valid
-// token-tree sequence of <= N token trees over the alphabet of tokens.rs:
+// Native validator for the C16 / C18 machinery (template; see vf/llsym/build.py::build_scan_validator).  Token streams are built
+// programmatically (proc_macro2::Punct::new(ch, spacing), ...), so every spacing a token stream can carry is covered.  For EVERY
+// sequence of <= N well-formed descriptors of tokens.rs (`any_seq` for (a), `lexer_seq` for (r) and (b)):
 //  (r) rendering: the text `render` produces lexes (real proc_macro2) to exactly the descriptors it was rendered from;
 //  (a) environment stubs: the working-tree scanner + FmtArgument compiled against REAL syn / proc_macro2 / quote must accept
 //      or reject the sequence, split it, detect aliases and classify single identifiers exactly as the same source
@@ -67,6 +68,22 @@ fn by_real_scanner(ntt: usize, ts: proc_macro2::TokenStream) -> Option<Vec<A>> {
     ranges(ntt, &counts)
 }
 
+/// the real token stream a descriptor sequence stands for
+fn build(ts: &[Tt]) -> proc_macro2::TokenStream {
+    use proc_macro2::{Delimiter, Group, Ident, Literal, Punct, Spacing, Span, TokenTree};
+    let inner = |src: &str| -> proc_macro2::TokenStream { src.parse().unwrap() };
+    ts.iter().map(|t| -> TokenTree { match t.kind {
+        K_IDENT => Ident::new(if t.keyword { "as" } else { "a" }, Span::call_site()).into(),
+        K_LIT => Literal::u8_unsuffixed(1).into(),
+        K_GROUP => match t.ch {
+            b'(' => Group::new(Delimiter::Parenthesis, inner("a, a")).into(),
+            b'[' => Group::new(Delimiter::Bracket, inner("a, a")).into(),
+            _ => Group::new(Delimiter::Brace, inner("a")).into(),
+        },
+        _ => Punct::new(t.ch as char, if t.joint { Spacing::Joint } else { Spacing::Alone }).into(),
+    }}).collect()
+}
+
 fn lexes_back(ts: &[Tt], stream: &proc_macro2::TokenStream) -> bool {
     let v: Vec<proc_macro2::TokenTree> = stream.clone().into_iter().collect();
     if v.len() != ts.len() { return false; }
@@ -88,16 +105,22 @@ struct Tot { total: u64, accepted: u64, bad_oracle: u64, bad_shim: u64, bad_rend
 
 fn check(ts: &[Tt], which: &str, tot: &mut Tot, shown: &std::sync::atomic::AtomicU32) {
     use std::sync::atomic::Ordering;
-    let text = render(ts);
+    let lexer = lexer_seq(ts);
+    if which == "oracle" && !(lexer && scanprobe::oracle::c16_seq(ts)) { return; }
     tot.total += 1;
-    let stream: proc_macro2::TokenStream = match text.parse() { Ok(s) => s, Err(_) => { tot.bad_render += 1; return; } };
-    if !lexes_back(ts, &stream) {
-        tot.bad_render += 1;
-        if shown.fetch_add(1, Ordering::Relaxed) < 40 { println!("RENDER {:?} does not lex back to its descriptors", text); }
-        return;
+    let stream = build(ts);
+    if lexer {
+        let text = render(ts);
+        let ok = match text.parse::<proc_macro2::TokenStream>() { Ok(s) => lexes_back(ts, &s), Err(_) => false };
+        if !ok {
+            tot.bad_render += 1;
+            if shown.fetch_add(1, Ordering::Relaxed) < 40 { println!("RENDER {:?} does not lex back to its descriptors", text); }
+        }
     }
     let mut digest = [0u8; 64];
-    unsafe { scanprobe::probe(ts.as_ptr(), ts.len(), digest.as_mut_ptr(), 0); }
+    // the C16 domain: lexer sequences in which `:` occurs only as `::`
+    let c16 = lexer && scanprobe::oracle::c16_seq(ts);
+    unsafe { scanprobe::probe(ts.as_ptr(), ts.len(), digest.as_mut_ptr(), if c16 { 0 } else { 2 }); }
     let dec = |cnt: u8, oracle: bool| -> Option<Vec<A>> {
         if cnt == 255 { return None; }
         Some((0..(cnt as usize).min(7)).map(|j| if oracle {
@@ -106,7 +129,7 @@ fn check(ts: &[Tt], which: &str, tot: &mut Tot, shown: &std::sync::atomic::Atomi
             A { alias: digest[4 + 4 * j] & 1 != 0, is_ident: digest[4 + 4 * j] & 2 != 0, first: digest[2 + 4 * j], end: digest[3 + 4 * j] }
         }).collect())
     };
-    if which != "shim" {
+    if which != "shim" && c16 {
         let want = by_syn(ts.len(), stream.clone());
         let got = dec(digest[1], true);
         if want.is_some() { tot.accepted += 1; }
@@ -117,7 +140,7 @@ fn check(ts: &[Tt], which: &str, tot: &mut Tot, shown: &std::sync::atomic::Atomi
         };
         if !same {
             tot.bad_oracle += 1;
-            if shown.fetch_add(1, Ordering::Relaxed) < 40 { println!("ORACLE {:?}: syn {:?} / oracle {:?}", text, want, got); }
+            if shown.fetch_add(1, Ordering::Relaxed) < 40 { println!("ORACLE {:?}: syn {:?} / oracle {:?}", render(ts), want, got); }
         }
     }
     if which != "oracle" {
@@ -130,19 +153,27 @@ fn check(ts: &[Tt], which: &str, tot: &mut Tot, shown: &std::sync::atomic::Atomi
         };
         if !same {
             tot.bad_shim += 1;
-            if shown.fetch_add(1, Ordering::Relaxed) < 40 { println!("SHIM {:?}: real syn {:?} / stubs {:?}", text, want, got); }
+            if shown.fetch_add(1, Ordering::Relaxed) < 40 { println!("SHIM {:?} {:?}: real syn {:?} / stubs {:?}", render(ts), ts.iter().map(|t| (t.ch as char, t.joint)).collect::<Vec<_>>(), want, got); }
         }
     }
 }
 
-/// depth-first enumeration of the valid sequences with the given prefix (validity is prefix-closed up to the pending Joint)
+/// depth-first enumeration of all descriptor sequences with the given prefix
 fn enumerate(prefix: &mut Vec<Tt>, n: usize, alpha: &[Tt], which: &str, tot: &mut Tot, shown: &std::sync::atomic::AtomicU32) {
-    if valid_seq(prefix) { check(prefix, which, tot, shown); }
+    check(prefix, which, tot, shown);
     if prefix.len() == n { return; }
     for &t in alpha {
-        // prune: a Joint punct must be followed by the second half of its operator
-        if let Some(p) = prefix.last() {
-            if p.kind == K_PUNCT && p.joint && !(t.kind == K_PUNCT && !t.joint && JOINT_PAIRS.contains(&(p.ch, t.ch))) { continue; }
+        if which == "oracle" {
+            // only the C16 domain matters: prune prefixes that no continuation makes a lexer sequence with `:` only as `::`
+            let l = prefix.len();
+            if l > 0 {
+                let p = prefix[l - 1];
+                if p.kind == K_PUNCT && p.joint && t.kind != K_PUNCT { continue; }
+                let mut first_half = false;   // is the last descriptor the first half of a `::`?
+                for q in prefix.iter() { first_half = q.kind == K_PUNCT && q.ch == b':' && !first_half; }
+                if first_half && !(p.joint && t.kind == K_PUNCT && t.ch == b':') { continue; }
+            }
+            if t.kind == K_PUNCT && t.ch == QUOTE { continue; }
         }
         prefix.push(t);
         enumerate(prefix, n, alpha, which, tot, shown);
@@ -150,22 +181,29 @@ fn enumerate(prefix: &mut Vec<Tt>, n: usize, alpha: &[Tt], which: &str, tot: &mu
     }
 }
 
-/// `scanvalidator replay "<source text>"`: the argument list through syn's full parser and through the working-tree scanner
-/// built against REAL syn - no stubs, no oracle restatement.  Exit 1 when Rust's grammar accepts the list and the scanner
-/// does anything else with it.
-fn replay(text: &str) -> i32 {
-    let stream: proc_macro2::TokenStream = match text.parse() { Ok(s) => s, Err(e) => { println!("does not lex: {e}"); return 2; } };
-    let ntt = stream.clone().into_iter().count();
-    let want = by_syn(ntt, stream.clone());
-    let got = std::panic::catch_unwind(|| by_real_scanner(ntt, stream));
-    println!("text: {text}\nsyn (full):         {:?}", want);
+/// `scanvalidator replay "k,c,j,w k,c,j,w ..."` (descriptors as decimal bytes): the token stream through syn's full parser and
+/// through the working-tree scanner built against REAL syn - no stubs, no oracle restatement.  Exit 1 when Rust's grammar
+/// accepts the list (lexer sequences only) and the scanner does anything else with it, 3 when the scanner panics.
+fn replay(desc: &str) -> i32 {
+    let ts: Vec<Tt> = desc.split_whitespace().map(|d| {
+        let v: Vec<u8> = d.split(',').map(|x| x.parse().unwrap()).collect();
+        Tt { kind: v[0], ch: v[1], joint: v[2] != 0, keyword: v[3] != 0 }
+    }).collect();
+    if !any_seq(&ts) { println!("not a sequence of well-formed descriptors"); return 2; }
+    let stream = build(&ts);
+    let lexer = lexer_seq(&ts);
+    println!("token trees: {}   (as source text{}: {})", stream, if lexer { "" } else { ", spacing not expressible" }, render(&ts));
+    let want = if lexer { by_syn(ts.len(), stream.clone()) } else { None };
+    let n = ts.len();
+    let got = std::panic::catch_unwind(move || by_real_scanner(n, stream));
+    println!("syn (full):           {:?}", want);
     match &got {
         Ok(g) => println!("working-tree scanner: {:?}", g),
         Err(_) => { println!("working-tree scanner: PANICKED"); return 3; }
     }
     let got = got.unwrap();
     match (want, got) {
-        (None, _) => { println!("not an argument list in Rust's grammar: nothing demanded of the scanner but to return"); 0 }
+        (None, _) => { println!("not an argument list in Rust's grammar (or not a lexer sequence): nothing demanded of the scanner but to return"); 0 }
         (Some(w), Some(g)) if w == g => { println!("agree"); 0 }
         _ => { println!("DISAGREE"); 1 }
     }
@@ -177,20 +215,22 @@ fn main() {
     }
     let n: usize = std::env::args().nth(1).and_then(|x| x.parse().ok()).unwrap_or(4);
     let which = std::env::args().nth(2).unwrap_or_else(|| "both".to_string());
-    let extra: Vec<String> = std::env::args().skip(3).collect();
-    let alpha = alphabet();
+    let reduced = std::env::args().nth(3).as_deref() == Some("reduced");
+    let alpha: Vec<Tt> = alphabet(true).into_iter().filter(|t| !reduced || match t.kind {
+        K_IDENT => true,
+        K_GROUP => t.ch == b'(',
+        K_PUNCT => b",<>:|=".contains(&t.ch),
+        _ => false,
+    }).collect();
     let shown = std::sync::atomic::AtomicU32::new(0);
     let mut tot = Tot::default();
     check(&[], &which, &mut tot, &shown);
-    // one thread per two-token prefix class, work-stealing over the list of prefixes
-    let mut prefixes: Vec<Vec<Tt>> = vec![];
-    for &a in &alpha { if n >= 1 { prefixes.push(vec![a]); } }
+    if n >= 1 { for &a in &alpha { check(&[a], &which, &mut tot, &shown); } }
+    // work items = two-descriptor prefixes, handed out to the threads
+    let mut work: Vec<Vec<Tt>> = vec![];
+    if n >= 2 { for &a in &alpha { for &b in &alpha { work.push(vec![a, b]); } } }
     let next = std::sync::atomic::AtomicUsize::new(0);
     let nthreads = std::thread::available_parallelism().map(|x| x.get()).unwrap_or(4);
-    let mut work: Vec<Vec<Tt>> = vec![];
-    for p in &prefixes {
-        if n >= 2 { for &b in &alpha { let mut q = p.clone(); q.push(b); work.push(q); } }
-    }
     let totals: Vec<Tot> = std::thread::scope(|s| {
         let hs: Vec<_> = (0..nthreads).map(|_| s.spawn(|| {
             let mut t = Tot::default();
@@ -198,17 +238,14 @@ fn main() {
                 let k = next.fetch_add(1, std::sync::atomic::Ordering::Relaxed);
                 if k >= work.len() { break; }
                 let mut p = work[k].clone();
-                let (a, b) = (p[0], p[1]);
-                if a.kind == K_PUNCT && a.joint && !(b.kind == K_PUNCT && !b.joint && JOINT_PAIRS.contains(&(a.ch, b.ch))) { continue; }
                 enumerate(&mut p, n, &alpha, &which, &mut t, &shown);
             }
             t
         })).collect();
         hs.into_iter().map(|h| h.join().unwrap()).collect()
     });
-    for p in &prefixes { if valid_seq(p) { check(p, &which, &mut tot, &shown); } }
     for t in totals { tot.total += t.total; tot.accepted += t.accepted; tot.bad_oracle += t.bad_oracle; tot.bad_shim += t.bad_shim; tot.bad_render += t.bad_render; }
-    println!("validated {} valid token-tree sequences of <= {} token trees over {} descriptors: {} are argument lists; oracle-vs-syn disagreements {}, stubs-vs-real-syn disagreements {}, rendering failures {}",
+    println!("validated {} descriptor sequences of <= {} token trees over {} descriptors (every spacing): {} sequences of the C16 domain are argument lists; oracle-vs-syn disagreements {}, stubs-vs-real-syn disagreements {}, rendering failures {}",
              tot.total, n, alpha.len(), tot.accepted, tot.bad_oracle, tot.bad_shim, tot.bad_render);
     if tot.bad_oracle > 0 || tot.bad_shim > 0 || tot.bad_render > 0 { std::process::exit(1); }
 }
